@@ -145,7 +145,14 @@ Section Plain.
       + destruct (wf_class_inv m Hwc) as [F1 F2 F3 F4 F5 F6 F7 F8 F9 F10 F11 F12 F13].
         rewrite Htx in F11. destruct F11 as [Hwt Hnoe].
         assert (Hevars : get_element_vars m = [tv]) by (rewrite (evars_eq m Hwc), Hnoe, Htx; reflexivity).
-        rewrite Hevars. cbn [flat_map]. rewrite app_nil_r.
+        assert (Hpairs : pairs cl fs m = emit1 fs tv).
+        { rewrite (pairs_plain cl fs m Hwc Hnames), Hevars; [cbn [flat_map]; apply app_nil_r|].
+          intros var Hv. rewrite Hevars in Hv. destruct Hv as [<-|[]].
+          destruct (wf_text_inv tv Hwt) as [_ [Hc _]]. destruct (var_common_inv tv Hc) as [_ [_ [_ [_ [_ [_ [_ [Hs _]]]]]]]]. exact Hs. }
+        assert (Hkf : flat_map (fun vv => RoundtripGen.e_field c u (eobj n) (fst vv) (snd vv)) (pairs cl fs m)
+                      = RoundtripGen.e_field c u (eobj n) tv (field_of fs tv)).
+        { rewrite Hpairs. unfold emit1. destruct (field_of fs tv); cbn [flat_map fst snd]; rewrite ?app_nil_r; reflexivity. }
+        rewrite Hkf.
         destruct (wf_text_inv tv Hwt) as [Hkt _].
         destruct (text_field_shape c u ok fs tv Hwt Hft) as [[Ex _]|[t [Ht [Hs _]]]].
         * unfold RoundtripGen.e_field. rewrite Ex. reflexivity.
@@ -155,18 +162,17 @@ Section Plain.
           rewrite He. pose proof (plain_data t _ _ Hs) as H.
           destruct (e_data (v_format tv) (field_of fs tv)) as [|k1 r]; [reflexivity|].
           destruct k1 as [atoms|? ? ?]; [|destruct H]. destruct r; [exact H|destruct H].
-      + assert (Hev : forall var, In var (get_element_vars m) -> is_elem_var m var).
-        { intros var Hv. destruct (wf_class_evar m var Hwc Hv) as [[Hw Hi]|[Ht _]]; [split; assumption|congruence]. }
-        assert (Hall : forall e, In e (flat_map (fun var => RoundtripGen.e_field c u (eobj n) var (field_of fs var)) (get_element_vars m)) ->
+      + assert (Hall : forall e, In e (flat_map (fun vv => RoundtripGen.e_field c u (eobj n) (fst vv) (snd vv)) (pairs cl fs m)) ->
                   (exists q a k, e = EElem q a k) /\ plain_tree e = true).
-        { intros e He. apply in_flat_map in He as [var [Hv He]].
-          rewrite (e_field_occ c u ign m n var _ (Hev var Hv)) in He.
-          assert (Hitem : forall y, In y (occ var (field_of fs var)) ->
+        { intros e He. apply in_flat_map in He as [[var x] [Hvv He]]. cbn [fst snd] in He.
+          destruct (pair_facts c u ok cl fs m Hwc Hmc Hnames n Hfe (var, x) Htx Hvv) as [Hvar [Hev [Hok0 _]]]. cbn [fst snd] in *.
+          rewrite (e_field_occ c u ign m n var _ Hev) in He.
+          assert (Hitem : forall y, In y (occ var x) ->
                     (exists q a k, ienode c u ign n var y = EElem q a k) /\ plain_tree (ienode c u ign n var y) = true).
           { intros y Hy.
-            destruct (elem_field_facts c u ok cl fs m Hmc n Hfe var (Hev var Hv)) as [Hok _].
+            pose proof Hok0 as Hok.
             rewrite Forall_forall in Hok. specialize (Hok y Hy).
-            pose proof (Hev var Hv) as [Hw Hin].
+            pose proof Hev as [Hw Hin].
             unfold item_ok in Hok. unfold ienode.
             destruct (wf_elem_inv var Hw) as [_ [_ [[k [Hty [Hcl Htf]]]|[t [Hty [Hst Hcl]]]]]].
             - rewrite Htf in *. destruct (fits_item_class c u ok _ var k y Hty Hok) as [cl' [fs' [-> Hfk]]].
@@ -181,10 +187,10 @@ Section Plain.
               + destruct (fits_item_simple c u ok _ var t y Hty Hst Hok) as [p [-> Hp]].
                 cbn [RoundtripGen.e_item]. split; [unfold RoundtripGen.e_prim; eauto|].
                 apply (plain_prim var t). apply vs_leaf. exact Hp. }
-          assert (Hitems : In e (map (ienode c u ign n var) (occ var (field_of fs var))) ->
+          assert (Hitems : In e (map (ienode c u ign n var) (occ var x)) ->
                     (exists q a k, e = EElem q a k) /\ plain_tree e = true).
           { intros Hi. apply in_map_iff in Hi as [y [<- Hy]]. apply Hitem. exact Hy. }
-          destruct (field_of fs var); try destruct He;
+          destruct x; try destruct He;
             (unfold RoundtripGen.e_wrap in He; destruct (v_wrapper_qname var) as [[|ch w]|];
              [apply Hitems; exact He| |apply Hitems; exact He]).
           all: destruct He as [<-|[]]; split; [eauto|].
@@ -196,7 +202,7 @@ Section Plain.
           all: destruct Hk1 as [[q1 [a1 [kk ->]]] _].
           all: apply forallb_forall; intros e' He'; rewrite <- Em in He';
             apply in_map_iff in He' as [y [<- Hy]]; apply Hitem; exact Hy. }
-        destruct (flat_map _ (get_element_vars m)) as [|k1 r] eqn:Ek; [reflexivity|].
+        destruct (flat_map _ (pairs cl fs m)) as [|k1 r] eqn:Ek; [reflexivity|].
         destruct (Hall k1 (or_introl eq_refl)) as [[q1 [a1 [kk ->]]] _].
         apply forallb_forall. intros e He. apply Hall. exact He.
   Qed.
